@@ -171,17 +171,19 @@ type Crash struct {
 
 // Result is what one execution produced, as far as the runtime is concerned.
 type Result struct {
-	Choices    []Choice
-	Steps      int
-	Switches   int
-	Threads    int
-	Blocked    []Blocked
-	Crash      *Crash
-	Fatal      string // e.g. unlock of unlocked mutex
-	HorizonHit bool
-	TimersLeft int   // active timers at the end
-	Now        int64 // virtual nanoseconds since execution start
-	Diverged   string
+	Choices      []Choice
+	Steps        int
+	Switches     int
+	Threads      int
+	Blocked      []Blocked
+	Crash        *Crash
+	Fatal        string // e.g. unlock of unlocked mutex
+	HorizonHit   bool
+	DoubleClose  int   // close of an already closed channel (a panic in Go)
+	SendOnClosed int   // send on a closed channel (a panic in Go)
+	TimersLeft   int   // active timers at the end
+	Now          int64 // virtual nanoseconds since execution start
+	Diverged     string
 }
 
 // Options configures one execution.
@@ -881,7 +883,8 @@ func Run(o Options, prefix []int, body func()) *Result {
 	x.aborting = true
 	for i := 0; i < x.nthreads; i++ {
 		t := x.threads[i]
-		if t.state != tsDone && !t.dormant {
+		// a thread that only stands for an armed AfterFunc timer is a timer (see TimersLeft), not a goroutine
+		if t.state != tsDone && !t.dormant && t.pend.kind != OpTimerStart {
 			x.res.Blocked = append(x.res.Blocked, Blocked{Thread: t.id, Name: t.name, Op: t.pend.kind.String()})
 		}
 	}
